@@ -30,11 +30,11 @@ BOUNDED = {"KSI_snprintf": 1, "KSI_vsnprintf": 1, "snprintf": 1, "vsnprintf": 1,
 
 
 def run(prog, chk):
-    tostring_table(prog, chk)
-    rendering_is_written(prog, chk)
-    asn1_value_reads(prog, chk)
-    template_track_depth(prog, chk)
-    _run(prog, chk)
+    chk.defer(tostring_table, prog, chk)
+    chk.defer(rendering_is_written, prog, chk)
+    chk.defer(asn1_value_reads, prog, chk)
+    chk.defer(template_track_depth, prog, chk)
+    chk.defer(_run, prog, chk)
 
 
 def _run(prog, chk):
@@ -383,6 +383,31 @@ def asn1_value_reads(prog, chk):
     from ksirules.model import walk, is_var
     chk.rule("C12.asn1read", "characters of a decoded ASN.1 value are read at fixed positions only after its length (or its well-formedness) "
                              "was checked on every path", floor=1)
+    # predicates of the unit that stand for a validator: a non-zero result is, on every return, the result of a validator (or of
+    # such a predicate) applied to the predicate's first parameter; the other returns are the constant 0
+    validators = set(ASN1_VALIDATORS)
+    grew = True
+    while grew:
+        grew = False
+        for g in prog.all_functions():
+            if not g.unit.startswith("pkitruststore") or g.name in validators or not g.params:
+                continue
+            rets = [m for b, i, m in g.nodes() if m.get("k") == "ret" and m.get("e") is not None]
+            okr = bool(rets)
+            some = False
+            for m in rets:
+                e = g.resolve(strip(m["e"]))
+                while isinstance(e, dict) and e.get("k") in ("cast", "paren"):
+                    e = g.resolve(strip(e["e"]))
+                if isinstance(e, dict) and e.get("k") == "int" and e.get("v") == 0:
+                    continue
+                if isinstance(e, dict) and e.get("k") == "call" and e.get("fn") in validators and e["a"] and is_var(g.resolve(strip(e["a"][0])), g.params[0]["n"]):
+                    some = True
+                    continue
+                okr = False
+            if okr and some:
+                validators.add(g.name)
+                grew = True
     n = 0
     for fn in sorted(prog.all_functions(), key=lambda f: (f.unit, f.line)):
         if not fn.unit.startswith("pkitruststore"):
@@ -422,7 +447,7 @@ def asn1_value_reads(prog, chk):
             bad = []
             for (g, gb, gi, call) in sites:
                 arg = lvalue_key(g.resolve(strip(call["a"][k])), g)
-                guard = g_true(ASN1_VALIDATORS, argcheck=lambda f_, c, loc, arg=arg, g=g: bool(c["a"]) and lvalue_key(g.resolve(strip(c["a"][0])), g) == arg)
+                guard = g_true(validators, argcheck=lambda f_, c, loc, arg=arg, g=g: bool(c["a"]) and lvalue_key(g.resolve(strip(c["a"][0])), g) == arg)
                 w = must_pass(g, [gb], guard)
                 if w is not None:
                     bad.append("%s (%s)" % (g.name, g.loc(g.elem_line(gb, gi))))
